@@ -16,10 +16,17 @@ inductive Outcome | accept (k : Nat) | again | fatal
 
 /-! ## Part A: IOWorker -/
 
+/-- what `socket.recv` gives in an iteration: data, end of stream, or a socket error other than ENOENT (both of the
+    latter close the worker) -/
+inductive Rx | data | eof | error
+  deriving Repr, DecidableEq
+
 inductive Op
   | send (d : Bytes)                       -- RecocoIOWorker.send: append + ping
   | sendFast (d : Bytes) (o : Outcome)     -- RecocoIOWorker.send_fast; `o` is used only if a direct write is attempted
   | pump (o : Outcome)                     -- one RecocoIOLoop iteration in which the worker is reported writable
+  /-- one iteration in which the worker is reported readable AND writable: `_do_recv` runs first (`rx`), then `_do_send` -/
+  | pumpRW (rx : Rx) (o : Outcome)
   deriving Repr
 
 structure St where
@@ -32,6 +39,9 @@ structure St where
   closeEvents : Nat := 0
   offered : Nat := 0            -- ghost: socket.send calls made
   offeredAfterClose : Nat := 0  -- ghost: socket.send calls made after the worker was closed
+  /-- configuration, constant: does `_do_send` test `self.closed` first (repair C20-2)?  Without the test a worker that
+      `_do_recv` closed earlier in the same pass is still offered to the socket. -/
+  guardClosed : Bool := true
 
 def doSend (s : St) (o : Outcome) : St :=
   if s.closed then s                                   -- discarded from the loop: `_do_send` is no longer called
@@ -46,9 +56,31 @@ def doSend (s : St) (o : Outcome) : St :=
     | .again => s
     | .fatal => { s with closed := true, closeEvents := s.closeEvents + 1 }
 
+/-- `_do_send` called on a worker whatever its state: the `socket.send` call, the bookkeeping of what it took, and
+    `close()` (idempotent: a second close reports nothing) on a fatal error -/
+def doSendRaw (s : St) (o : Outcome) : St :=
+  if s.sendBuf.length = 0 then s else
+  let s := { s with offered := s.offered + 1, offeredAfterClose := s.offeredAfterClose + (if s.closed then 1 else 0) }
+  match o with
+  | .accept k =>
+    let k := min k s.sendBuf.length
+    if k = 0 then s else
+    { s with sendBuf := s.sendBuf.drop k, accepted := s.accepted ++ s.sendBuf.take k }
+  | .again => s
+  | .fatal => { s with closed := true, closeEvents := s.closeEvents + (if s.closed then 0 else 1) }
+
+/-- `_do_recv`: end of stream or a socket error closes the worker (once) -/
+def doRecv (s : St) : Rx → St
+  | .data => s
+  | _ => if s.closed then s else { s with closed := true, closeEvents := s.closeEvents + 1 }
+
 def step (s : St) : Op → St
   | .send d => { s with sendBuf := s.sendBuf ++ d, queued := s.queued ++ d }     -- send() never looks at `closed`
   | .pump o => doSend s o
+  | .pumpRW rx o =>
+    if s.closed then s                                  -- discarded from the loop in an earlier pass
+    else if s.guardClosed then doSend (doRecv s rx) o   -- `_do_send` returns at once on a closed worker
+    else doSendRaw (doRecv s rx) o                      -- unrepaired: the write set was computed before `_do_recv` ran
   | .sendFast d o =>
     if s.sendBuf.length = 0 ∧ ¬ s.closed then
       let s := { s with offered := s.offered + 1, offeredAfterClose := s.offeredAfterClose + (if s.closed then 1 else 0) }
@@ -62,6 +94,9 @@ def step (s : St) : Op → St
     else { s with sendBuf := s.sendBuf ++ d, queued := s.queued ++ d }
 
 def run (ops : List Op) : St := ops.foldl step {}
+
+/-- the same with a chosen configuration -/
+def runWith (guard : Bool) (ops : List Op) : St := ops.foldl step { guardClosed := guard }
 
 /-! ## Part B: controller connection + deferred sender -/
 
